@@ -901,6 +901,26 @@ func (c *Ctx) lookup(fr *frame, in *ssa.Lookup) Value {
 	if d, ok := k.(DtypeV); ok && d.Idx == -1 {
 		return c.lookupSymDtype(m, d, valT, in.CommaOk)
 	}
+	// a symbolic scalar key: decide entry by entry (one path per entry, one for "absent")
+	if kt, ok := k.(*smt.Term); ok && !kt.IsConst() && m != nil {
+		for _, ks := range m.Order {
+			e := m.M[ks]
+			ek, ok := e.K.(*smt.Term)
+			if !ok || ek.Sort != kt.Sort {
+				continue
+			}
+			if c.branchOn(c.St.Eq(kt, ek), "map-key "+c.pos(in.Pos())) {
+				if in.CommaOk {
+					return TupleV{copyVal(e.V), c.St.True()}
+				}
+				return copyVal(e.V)
+			}
+		}
+		if in.CommaOk {
+			return TupleV{c.zero(valT), c.St.False()}
+		}
+		return c.zero(valT)
+	}
 	var val Value
 	found := false
 	if m != nil {
